@@ -1,3 +1,4 @@
+-- FAMILY: C22
 /-
   Driver.C22.handler — join statements and operator-level hash-join cases of harness/src/fam_c22.rs
   (sqlgen case format, mode spec).
@@ -83,6 +84,11 @@ def residualOf (d : JoinDesc) : Row → Row → Bool := fun l r =>
     | .ok (.bool true) => true
     | _ => false
 
+/-- what `CompiledFilter::evaluate` computes: the residual over the rows with every NULL cell read as its raw slot value 0 -/
+def residualRawOf (d : JoinDesc) : Row → Row → Bool := fun l r =>
+  let z (row : Row) : Row := row.map fun v => if v.isNull then .int 0 else v
+  residualOf d (z l) (z r)
+
 /-- cut the rows of a table into partitions × batches of the given lengths -/
 def cutParts (rows : Table) (parts : List (List Nat)) : List (List Table) :=
   let step (acc : Table × List (List Table)) (p : List Nat) : Table × List (List Table) :=
@@ -102,7 +108,8 @@ structure Inputs where
   rp : List (List Table)
 
 def cfgOf (d : JoinDesc) (buildLeft : Bool) : Cfg :=
-  { lkeys := d.lkeys, rkeys := d.rkeys, residual := residualOf d, lw := d.lw, rw := d.rw, buildLeft := buildLeft }
+  { lkeys := d.lkeys, rkeys := d.rkeys, residual := residualOf d, residualRaw := residualRawOf d, lw := d.lw, rw := d.rw,
+    buildLeft := buildLeft }
 
 def modelRun (dev : Dev) (d : JoinDesc) (inp : Inputs) (buildLeft : Bool) : Except Err Table := do
   let rows := hashJoin dev d.jt (cfgOf d buildLeft) inp.lp inp.rp
@@ -120,20 +127,70 @@ def acceptableOn (c : Case) (out : Table) : Bool :=
 
 def isSA (jt : JoinType) : Bool := jt == .semi || jt == .anti
 
+/-- does the residual have the one shape `CompiledFilter::try_compile` accepts: a single comparison between a left and a
+    right column -/
+def residCompiles (d : JoinDesc) : Bool :=
+  let cmp (op : BinOp) : Bool := op == .eq || op == .ne || op == .lt || op == .le || op == .gt || op == .ge
+  match d.rest with
+  | [.bin op (.col i) (.col j)] => cmp op && !d.viaExists && ((i < d.lw && d.lw ≤ j) || (j < d.lw && d.lw ≤ i))
+  | [.bin op (.col _) (.outer 1 _)] => cmp op && d.viaExists
+  | [.bin op (.outer 1 _) (.col _)] => cmp op && d.viaExists
+  | _ => false
+
 /-- the switch sets that may explain a failing case, with the build side they need: (finding, dev, buildLeft).
-    * C22-F1 `smallProbeEmptyTable`: residual ∧ Semi/Anti ∧ the probe side has ≤ 1000 rows (either build side);
-    * C22-F2 `semiStopAtFirstPass` (+ `chainNewestFirst`, the vectorized table's chain order): residual ∧ Semi/Anti ∧
-      > 1000 probe rows ∧ build = left (the probe side is the right input). -/
-def switchSets (d : JoinDesc) (buildLeftKnown : Option Bool) : List (String × Dev × Bool) :=
+    Only for Semi/Anti WITH a residual (the filtered Semi/Anti probe paths of hash_join.rs):
+    * C22-F1, the EMPTY generic hash table.  ≤ 1000 probe rows: always (`smallProbeEmptyTable`, generic loop of
+      `probe_hash_table`).  > 1000 probe rows (`semiAntiEmptyTable`, `probe_semi_anti_parallel`): unless the key is a single
+      BIGINT column on both sides and the residual compiles — only then are candidates served from the vectorized table;
+    * C22-F2 `semiStopAtFirstPass` (+ `chainNewestFirst`, the vectorized table's chain order): > 1000 probe rows ∧ single
+      BIGINT key ∧ compiled residual ∧ build = left (the probe side is the right input);
+    * C22-F5 `compiledFilterRawNulls`: > 1000 probe rows ∧ single BIGINT key ∧ compiled residual, either build side (a
+      case that needs F2's switches as well is reported under C22-F2). -/
+def switchSets (d : JoinDesc) (buildLeftKnown : Option Bool) (singleI64 : Bool) : List (String × Dev × Bool) :=
   let hasResid := !d.rest.isEmpty
   if !(hasResid && isSA d.jt) then [] else
   let sides : List Bool := match buildLeftKnown with | some b => [b] | none => [true, false]
+  let served := singleI64 && residCompiles d
   sides.flatMap fun bl =>
     let probeRows := if bl then d.R.length else d.L.length
     (if probeRows ≤ 1000 then [("C22-F1", ({ smallProbeEmptyTable := true } : Dev), bl)] else []) ++
-    (if probeRows > 1000 && bl then
+    (if probeRows > 1000 && !served then [("C22-F1", ({ semiAntiEmptyTable := true } : Dev), bl)] else []) ++
+    (if probeRows > 1000 && served && bl then
       [("C22-F2", ({ semiStopAtFirstPass := true, chainNewestFirst := true } : Dev), true),
-       ("C22-F2", ({ semiStopAtFirstPass := true } : Dev), true)] else [])
+       ("C22-F2", ({ semiStopAtFirstPass := true, chainNewestFirst := true, compiledFilterRawNulls := true } : Dev), true)] else []) ++
+    (if probeRows > 1000 && served then [("C22-F5", ({ compiledFilterRawNulls := true } : Dev), bl)] else [])
+
+/-- status of the residual on a key-equal pair: `some true` TRUE, `some false` not TRUE, `none` = an operand cell is NULL
+    (what `CompiledFilter::evaluate` answers then depends on the raw slot value, which is not part of the case) -/
+def residStatus (d : JoinDesc) (l r : Row) : Option Bool :=
+  if residualOf d l r then some true
+  else
+    let nullInvolved := d.rest.any fun e =>
+      match (if d.viaExists then eval cx0 [r, l] e else eval cx0 [l ++ r] e) with
+      | .ok .null => true
+      | _ => false
+    if nullInvolved then none else some false
+
+/-- Signature of C22-F2 / C22-F5 where the exact mirror is impossible (Parquet: build-row order and the raw values of
+    NULL slots are not part of the case).  `out` must be the projections of a set M̂ of left rows (Semi: M̂ = marked rows,
+    Anti: its complement) such that, with T / F / N the residual status of key-equal pairs:
+      build = right (probe rows are the output):  ∃ r. T  ⇒  l ∈ M;   l ∈ M  ⇒  ∃ r. T or N;
+      build = left  (stop at the first passing candidate):  l ∈ M ⇒ ∃ r. T or N;  every right row with a T candidate has a
+        T-or-N candidate in M. -/
+def sigServed (d : JoinDesc) (out : Table) (bl : Bool) : Bool :=
+  let cfg := cfgOf d true
+  let proj (l : Row) : Option Row := match evalList cx0 [l] d.es with | .ok r => some (normTable [r]).head! | .error _ => none
+  let tagged : List (Row × Bool) := d.L.map fun l => (l, match proj l with | some pl => out.contains pl | none => false)
+  let nIn := (tagged.filter (·.2)).length
+  let inM (x : Row × Bool) : Bool := if d.jt == .semi then x.2 else !x.2
+  let M := (tagged.filter inM).map (·.1)
+  let st (l r : Row) : Option Bool := if keysEq cfg l r then residStatus d l r else some false
+  let wellFormed := nIn == out.length
+  let sound := M.all fun l => d.R.any fun r => st l r != some false
+  let complete :=
+    if bl then d.R.all fun r => !(d.L.any fun l => st l r == some true) || M.any fun l => st l r != some false
+    else tagged.all fun x => !(d.R.any fun r => st x.1 r == some true) || inM x
+  wellFormed && sound && complete
 
 def colTyAt (cat : Json) (t i : Nat) : String :=
   match cat.getArrVal? t with
@@ -142,35 +199,66 @@ def colTyAt (cat : Json) (t i : Nat) : String :=
       | .error _ => "?")
   | .error _ => "?"
 
-/-- C22-F3 signature: a key pair joins an INTEGER (i32) with a BIGINT (i64) column and the engine panicked with an
-    index out of bounds (direct-address hash table walked with a hashed bucket index) -/
-def sigMixedWidth (d : JoinDesc) (cat : Json) (o : Outcome) : Bool :=
-  let mixedPair := (d.lkeys.zip d.rkeys).any fun (i, j) =>
+def mixedPair (d : JoinDesc) (cat : Json) : Bool :=
+  (d.lkeys.zip d.rkeys).any fun (i, j) =>
     let a := colTyAt cat 0 i; let b := colTyAt cat 1 j
     (a == "i32" && b == "i64") || (a == "i64" && b == "i32")
+
+def hasSub (msg pat : String) : Bool := (msg.splitOn pat).length > 1
+
+/-- C22-F3 signature: a key pair joins an INTEGER (i32) with a BIGINT (i64) column and the engine either panicked with an
+    index out of bounds (direct-address hash table of the BIGINT build key walked with the hashed bucket of the INTEGER
+    probe key) or failed with "runtime filter column is not Int64" (the BIGINT build keys published to the INTEGER
+    probe-side scan) -/
+def sigMixedWidth (d : JoinDesc) (cat : Json) (o : Outcome) (msg : String) : Bool :=
+  mixedPair d cat &&
   match o with
-  | .panic m => mixedPair && (m.splitOn "index out of bounds").length > 1
+  | .panic m => hasSub m "index out of bounds"
+  | .err _ => hasSub msg "runtime filter column is not Int64"
   | _ => false
 
-def attrC22 (d : JoinDesc) (inp : Inputs) (buildLeftKnown : Option Bool) (cat : Json) (neutral : Option Outcome) : AttrFn :=
+/-- C22-F4 signature (mirrors `create_joined_batch`'s `build_batches.is_empty()` arm, which gathers NO build column):
+    the build input is empty, the probe input is not, the join type NULL-extends unmatched probe rows, and the engine
+    failed with the column-count error of `RecordBatch::try_new`. -/
+def sigEmptyBuild (d : JoinDesc) (buildLeftKnown : Option Bool) (o : Outcome) (msg : String) : Bool :=
+  let sides : List Bool := match buildLeftKnown with
+    | some b => [b]
+    | none => match d.jt with | .left => [true, false] | .right => [false] | _ => [true]
+  let probePreserved (bl : Bool) : Bool := match d.jt with | .left => !bl | .full => true | _ => false
+  let applies := sides.any fun bl =>
+    let b := if bl then d.L.length else d.R.length
+    let p := if bl then d.R.length else d.L.length
+    b == 0 && p > 0 && probePreserved bl
+  match o with
+  | .err _ => applies && hasSub msg "must match number of fields"
+  | _ => false
+
+def attrC22 (d : JoinDesc) (inp : Inputs) (buildLeftKnown : Option Bool) (cat : Json) (neutral : Option Outcome) (msg : String)
+    (parquet : Bool) : AttrFn :=
   fun c o _spec =>
   let okOff : Bool := match modelRun {} d inp true with
     | .ok t => acceptableOn c (normTable t)
     | .error _ => false
   if !okOff then none else
+  let singleI64 := d.lkeys.length == 1 && (d.lkeys.zip d.rkeys).all fun (i, j) => colTyAt cat 0 i == "i64" && colTyAt cat 1 j == "i64"
   match o with
   | .ok out =>
-    match (switchSets d buildLeftKnown).find? (fun (_, dev, bl) =>
+    match (switchSets d buildLeftKnown singleI64).find? (fun (_, dev, bl) =>
         match modelRun dev d inp bl with | .ok t => Spec.bagEq out (normTable t) | .error _ => false) with
     | some (f, _, _) => some f
-    | none => none
-  | .panic _ =>
-    if sigMixedWidth d cat o then
+    | none =>
+      -- Parquet: same gating as the F2 / F5 switches, decided by signature
+      let sets := switchSets d buildLeftKnown singleI64
+      if parquet && isSA d.jt && sets.any (fun x => x.1 == "C22-F2") && sigServed d out true then some "C22-F2"
+      else if parquet && isSA d.jt && sets.any (fun x => x.1 == "C22-F5" && !x.2.2) && sigServed d out false then some "C22-F5"
+      else none
+  | _ =>
+    if sigMixedWidth d cat o msg then
       match neutral with
       | some (.ok nout) => if acceptableOn c nout then some "C22-F3" else none
       | _ => none
+    else if sigEmptyBuild d buildLeftKnown o msg then some "C22-F4"
     else none
-  | .err _ => none
 
 def jtName : JoinType → String
   | .inner => "inner" | .left => "left" | .right => "right" | .full => "full" | .semi => "semi" | .anti => "anti" | .cross => "cross"
@@ -196,7 +284,9 @@ def handler : Driver.Handler := fun cj i => do
   let neutral : Option Outcome := match i.getObjVal? "neutral" with
     | .ok nj => (outcomeOfJson nj).toOption
     | .error _ => none
-  let v ← handlerWith (attrC22 d inp buildLeftKnown cat neutral) cj i
+  let msg := (i.getObjValAs? String "msg").toOption.getD ""
+  let cfgS := (cj.getObjValAs? String "cfg").toOption.getD ""
+  let v ← handlerWith (attrC22 d inp buildLeftKnown cat neutral msg (cfgS.startsWith "pq")) cj i
   let total := residualTotal d
   let m := modelRun {} d inp (buildLeftKnown.getD true)
   let k := match m, o with
